@@ -14,6 +14,7 @@ extern "C" int __sanitizer_install_malloc_and_free_hooks(void (*malloc_hook)(con
 #include <nstd/String.hpp>
 #undef private
 #include <nstd/List.hpp>
+#include <nstd/HashSet.hpp>
 
 enum { MAXV = 48, MAXR = 128, GUARD = 32, MAXLIT = 40, MAXLIVE = 8192 };
 
@@ -97,6 +98,27 @@ template<int N> struct Lit {
 template<> struct Lit<0> { static void fill(lit_fn*) {} };
 static lit_fn lit_table[MAXLIT + 2];
 
+// operator==(const char(&)[N]) / operator!=(const char(&)[N]): 1 / 0, or -1 when the two disagree
+typedef int (*liteq_fn)(const String&, const unsigned char*);
+template<int N> struct LitEq {
+  static int eq(const String& s, const unsigned char* p) {
+    const char (&a)[N] = *(const char(*)[N])p;
+    bool e = s == a, ne = s != a;
+    return e == ne ? -1 : (e ? 1 : 0);
+  }
+  static void fill(liteq_fn* t) { t[N] = &eq; LitEq<N - 1>::fill(t); }
+};
+template<> struct LitEq<0> { static void fill(liteq_fn*) {} };
+static liteq_fn liteq_table[MAXLIT + 2];
+
+// lexicographic order of byte strings (unsigned bytes, a proper prefix first)
+static int cmp_tok(const String* a, const String* b)
+{
+  usize la = a->length(), lb = b->length(), n = la < lb ? la : lb;
+  int r = n ? memcmp(a->data->str, b->data->str, n) : 0;
+  return r ? r : la < lb ? -1 : la > lb ? 1 : 0;
+}
+
 static void begin(long, vh::Tok&)
 {
   tracking = false;
@@ -175,8 +197,9 @@ static void op(long c, long, vh::Tok& t)
   #define N(i) ((usize)strtoull(t.v[i], 0, 10))
   #define V(i) (*vars[var(t.v[i])])
   // argument sanity (the generators only produce valid indices; anything else is a harness error)
-  bool ctor = IS("new") || IS("lit") || IS("buf") || IS("fill") || IS("cap") || IS("copy") || IS("drop") || IS("reg");
-  if(!ctor && (t.n < 2 || var(t.v[1]) < 0)) { printf("! harness: bad variable\n"); tracking = false; return; }
+  bool ctor = IS("new") || IS("lit") || IS("buf") || IS("fill") || IS("cap") || IS("copy") || IS("drop") || IS("reg") || IS("fromprintf");
+  if(IS("stat") && (t.n < 5 || var(t.v[2]) < 0 || var(t.v[3]) < 0)) { printf("! harness: bad variable\n"); tracking = false; return; }
+  if(!ctor && !IS("stat") && (t.n < 2 || var(t.v[1]) < 0)) { printf("! harness: bad variable\n"); tracking = false; return; }
   if(ctor && !IS("drop") && !IS("reg") && nv >= MAXV) { printf("! harness: too many variables\n"); tracking = false; return; }
 
   if(IS("new")) { vars[nv++] = new String; printf("-"); }
@@ -279,6 +302,58 @@ static void op(long c, long, vh::Tok& t)
     int r = s.printf("%s%s%s", a.c(), p, b.c());
     printf("%d", r);
   }
+  else if(IS("eqlit")) {
+    CArg a(A(2));
+    if(a.n > MAXLIT) { printf("! harness: literal too long\n"); tracking = false; return; }
+    int r = liteq_table[a.n + 1](V(1), a.p);
+    if(r < 0) printf("!eq-ne-inconsistent"); else printf("%d", r);
+  }
+  else if(IS("splitset")) {
+    CArg a(A(2));
+    HashSet<String> hs;
+    usize n = V(1).split(hs, a.c(), atoi(A(3)) != 0);
+    enum { MAXTOK = 4096 };
+    static const String* tok[MAXTOK];
+    usize k = 0;
+    for(HashSet<String>::Iterator i = hs.begin(), e = hs.end(); i != e && k < MAXTOK; ++i) tok[k++] = &*i;
+    for(usize i = 1; i < k; ++i) {              // insertion sort
+      const String* x = tok[i]; usize j = i;
+      for(; j > 0 && cmp_tok(x, tok[j - 1]) < 0; --j) tok[j] = tok[j - 1];
+      tok[j] = x;
+    }
+    printf("L%llu:", (unsigned long long)k);
+    for(usize i = 0; i < k; ++i) {
+      if(i) printf(",");
+      vh::puthex((const unsigned char*)tok[i]->data->str, tok[i]->length());
+    }
+    if(n != hs.size() || k != hs.size()) printf(" !count");
+  }
+  else if(IS("fromprintf")) {
+    CArg a(A(1));
+    String r = String::fromPrintf("%s", a.c());
+    vars[nv++] = new String(r);
+    printf("-");
+  }
+  else if(IS("stat")) {
+    // the static const char* helpers run on the C-string views of COPIES (the variables keep their representation)
+    const char* q = A(1);
+    const String& x = *vars[var(t.v[2])]; const String& y = *vars[var(t.v[3])];
+    usize n = N(4);
+    if(!strcmp(q, "eqin")) printf("%d", x.equalsIgnoreCase(y, n) ? 1 : 0);
+    else {
+      String cx(x), cy(y);
+      const char* px = cx; const char* py = cy;
+      if(!strcmp(q, "scmp")) printf("%d", sign(String::compare(px, py)));
+      else if(!strcmp(q, "scmpn")) printf("%d", sign(String::compare(px, py, n)));
+      else if(!strcmp(q, "scmpi")) printf("%d", sign(String::compareIgnoreCase(px, py)));
+      else if(!strcmp(q, "scmpin")) printf("%d", sign(String::compareIgnoreCase(px, py, n)));
+      else if(!strcmp(q, "sstarts")) printf("%d", String::startsWith(px, y) ? 1 : 0);
+      else if(!strcmp(q, "slen")) printf("%llu", (unsigned long long)String::length(px));
+      else if(!strcmp(q, "sfindc")) { const char* p = String::find(px, (char)n); printf("%lld", off(cx, px, p)); }
+      else if(!strcmp(q, "sfindlc")) { const char* p = String::findLast(px, (char)n); printf("%lld", off(cx, px, p)); }
+      else printf("?unknown-query");
+    }
+  }
   else if(IS("len")) {
     const String& s = V(1);
     if(s.isEmpty() != (s.length() == 0)) printf("!isEmpty-inconsistent"); else printf("%llu", (unsigned long long)s.length());
@@ -291,6 +366,7 @@ static void op(long c, long, vh::Tok& t)
 int main(int argc, char** argv)
 {
   Lit<MAXLIT + 1>::fill(lit_table);
+  LitEq<MAXLIT + 1>::fill(liteq_table);
   __sanitizer_install_malloc_and_free_hooks(on_malloc, on_free);
   return vh::run(argc, argv, begin, op, end);
 }
